@@ -381,3 +381,33 @@ func rangeDoneEdges(fn *ssa.Function, p Pat) []eng.Edge {
 	out = append(out, eng.RelEdges(fn, token.GEQ, eng.PAny(), eng.PLen(p))...)
 	return out
 }
+
+func orStr(a, b string) string {
+	if a != "" {
+		return a
+	}
+	return b
+}
+
+// sameWeb: v and w are reads of the same variable (they share a non-nil
+// assigned value, or are the same SSA value).
+func sameWeb(v, w ssa.Value) bool {
+	if v == nil || w == nil {
+		return false
+	}
+	if eng.Strip(v) == eng.Strip(w) {
+		return true
+	}
+	in := map[ssa.Value]bool{}
+	for _, a := range eng.Assignments(w) {
+		if !eng.IsNilConst(a.Val) {
+			in[a.Val] = true
+		}
+	}
+	for _, a := range eng.Assignments(v) {
+		if in[a.Val] {
+			return true
+		}
+	}
+	return false
+}
